@@ -142,6 +142,8 @@ def explore_E(chunk):
             variant("parentheses", L.render(t2)[0])
         for t2 in L.signed_paren_variants(tokens):
             variant("parentheses-signed", L.render(t2)[0])
+        for t2 in L.element_paren_variants(tokens):
+            variant("parentheses-element", L.render(t2)[0])
         for t2 in L.semicolon_variants(tokens):
             variant("semicolon", L.render(t2)[0])
         # combined: every uniform layout on every re-spelled token list
@@ -156,7 +158,38 @@ def explore_E(chunk):
     return agg
 
 
+def explore_P(chunk):
+    """redundant parentheses around operands: every flat `a op1 b op2 c`
+    against the same expression with every sub-expression parenthesised as
+    the stated precedence groups it (differential, implementation only)"""
+    from mc.props import c02
+    from mc.ref import refeval as E
+    import itertools
+    agg = core.Agg()
+    for (o1, o2) in chunk["pairs"]:
+        for a, b, c in itertools.product(chunk["operands"], repeat=3):
+            toks = [c02.leaf(a), o1, c02.leaf(b), o2, c02.leaf(c)]
+            flat = c02.flat_text(toks)
+            full = E.render(c02.ref_parse(list(toks)), True)
+            base, got = observe(flat), observe(full)
+            agg.count("steps", 2)
+            agg.cls(("P", base[0][0]))
+            if got != base:
+                agg.violation({"level": "P", "op1": o1, "op2": o2},
+                              {"t": "P", "prog": flat, "text": full},
+                              [list(base[0]), base[1]],
+                              [list(got[0]), got[1]], size=len(flat))
+        agg.count("cases")
+    return agg
+
+
 def replay(case, verbose=False):
+    if case["t"] == "P":
+        base, got = observe(case["prog"]), observe(case["text"])
+        if verbose:
+            print(repr(case["prog"]), "->", base)
+            print(repr(case["text"]), "->", got)
+        return got != base
     tokens = L.tokenize(case["prog"])
     default = L.render(tokens)[0]
     if case["t"] == "L":
@@ -187,6 +220,12 @@ def main(tier, seed):
     agg.merge(core.pmap(explore_E, [
         {"programs": c, "combine": tier == "thorough"}
         for c in core.chunked(EVAL_PROGRAMS, core.NPROC * 3)]))
+    from mc.props import c02
+    pairs = [(a, b) for a in c02.BINOPS for b in c02.BINOPS]
+    agg.merge(core.pmap(explore_P, [
+        {"pairs": c, "operands": [3, 2, "z"] if tier == "quick"
+         else [3, -2, 1.5, "z", True]}
+        for c in core.chunked(pairs, core.NPROC * 2)]))
     if agg.n.get("base_not_runnable", 0) > len(EVAL_PROGRAMS) // 5:
         core.harness_error("most base programs do not run")
     core.finish(
